@@ -182,25 +182,33 @@ fn gen_number_point(rng: &mut Rng, modelled: bool, bump: &mut dyn FnMut(&str)) -
 }
 
 // ------------------------------------------------ text for the model ----
-fn av_text(v: &Option<AnyValue>) -> Option<String> {
+fn av_text(v: &Option<AnyValue>, strict: bool) -> Option<String> {
     match v.as_ref().and_then(|a| a.value.as_ref()) {
         None => Some("n".into()),
         Some(any_value::Value::StringValue(s)) => Some(format!("s{}", hex(s.as_bytes()))),
         Some(any_value::Value::BoolValue(b)) => Some(if *b { "b1".into() } else { "b0".into() }),
         Some(any_value::Value::IntValue(i)) => Some(format!("i{}", i)),
-        _ => None,
+        _ => if strict { None } else { Some("n".into()) },
     }
 }
-fn kv_text(l: &[KeyValue]) -> Option<String> {
+fn kv_text(l: &[KeyValue], strict: bool) -> Option<String> {
     let mut v = Vec::new();
     for kv in l {
-        v.push(format!("{}={}", hex(kv.key.as_bytes()), av_text(&kv.value)?));
+        v.push(format!("{}={}", hex(kv.key.as_bytes()), av_text(&kv.value, strict)?));
     }
     Some(v.join("~"))
 }
 
 /// None when the request uses attribute values the model does not cover
 pub fn request_text(r: &ExportMetricsServiceRequest) -> Option<String> {
+    request_text_with(r, true)
+}
+/// attribute values the model does not cover are replaced by "missing": good
+/// enough for the known-finding classifiers, which look at times and values only
+pub fn classifier_text(r: &ExportMetricsServiceRequest) -> String {
+    request_text_with(r, false).unwrap_or_else(|| "-".into())
+}
+fn request_text_with(r: &ExportMetricsServiceRequest, strict: bool) -> Option<String> {
     if r.resource_metrics.is_empty() {
         return Some("-".into());
     }
@@ -208,7 +216,7 @@ pub fn request_text(r: &ExportMetricsServiceRequest) -> Option<String> {
     for rm in &r.resource_metrics {
         let res = match &rm.resource {
             None => "N".to_string(),
-            Some(x) => format!("S{}", kv_text(&x.attributes)?),
+            Some(x) => format!("S{}", kv_text(&x.attributes, strict)?),
         };
         let mut scopes = Vec::new();
         for sc in &rm.scope_metrics {
@@ -224,7 +232,7 @@ pub fn request_text(r: &ExportMetricsServiceRequest) -> Option<String> {
                         Some(number_data_point::Value::AsDouble(d)) => format!("D{}", d.to_bits()),
                         Some(number_data_point::Value::AsInt(i)) => format!("I{}", i),
                     };
-                    Some(format!("{},{},{}", p.time_unix_nano, v, kv_text(&p.attributes)?))
+                    Some(format!("{},{},{}", p.time_unix_nano, v, kv_text(&p.attributes, strict)?))
                 };
                 let (kind, pts): (&str, Vec<Option<String>>) = match &m.data {
                     None => ("N", vec![]),
@@ -234,17 +242,17 @@ pub fn request_text(r: &ExportMetricsServiceRequest) -> Option<String> {
                         "H",
                         h.data_points
                             .iter()
-                            .map(|p| Some(format!("{},{},{},{}", p.time_unix_nano, p.sum.map(|s| format!("S{}", s.to_bits())).unwrap_or("N".into()), p.count, kv_text(&p.attributes)?)))
+                            .map(|p| Some(format!("{},{},{},{}", p.time_unix_nano, p.sum.map(|s| format!("S{}", s.to_bits())).unwrap_or("N".into()), p.count, kv_text(&p.attributes, strict)?)))
                             .collect(),
                     ),
                     Some(Data::ExponentialHistogram(h)) => (
                         "E",
                         h.data_points
                             .iter()
-                            .map(|p| Some(format!("{},{},{},{}", p.time_unix_nano, p.sum.map(|s| format!("S{}", s.to_bits())).unwrap_or("N".into()), p.count, kv_text(&p.attributes)?)))
+                            .map(|p| Some(format!("{},{},{},{}", p.time_unix_nano, p.sum.map(|s| format!("S{}", s.to_bits())).unwrap_or("N".into()), p.count, kv_text(&p.attributes, strict)?)))
                             .collect(),
                     ),
-                    Some(Data::Summary(s)) => ("Y", s.data_points.iter().map(|p| Some(format!("{},{},{}", p.time_unix_nano, p.sum.to_bits(), kv_text(&p.attributes)?))).collect()),
+                    Some(Data::Summary(s)) => ("Y", s.data_points.iter().map(|p| Some(format!("{},{},{}", p.time_unix_nano, p.sum.to_bits(), kv_text(&p.attributes, strict)?))).collect()),
                 };
                 let pts: Option<Vec<String>> = pts.into_iter().collect();
                 ms.push(format!("{}@{}@{}", hex(m.name.as_bytes()), kind, pts?.join("&")));
@@ -301,7 +309,7 @@ pub fn canon_batch(b: &RecordBatch) -> String {
         Err(e) => format!("BADBATCH {}", e),
         Ok((cols, rows)) => format!(
             "cols={}|rows={}",
-            cols.iter().map(|c| hex(c)).collect::<Vec<_>>().join(","),
+            cols.iter().map(|c| format!("x{}", hex(c))).collect::<Vec<_>>().join(","),
             rows.iter()
                 .map(|r| {
                     format!(
@@ -309,7 +317,7 @@ pub fn canon_batch(b: &RecordBatch) -> String {
                         r.ts,
                         hex(&r.name),
                         r.bits.map(|b| b.to_string()).unwrap_or("NULL".into()),
-                        cols.iter().map(|c| r.labels.get(c).map(|v| hex(v)).unwrap_or("~".into())).collect::<Vec<_>>().join(",")
+                        cols.iter().map(|c| r.labels.get(c).map(|v| format!("x{}", hex(v))).unwrap_or("~".into())).collect::<Vec<_>>().join(",")
                     )
                 })
                 .collect::<Vec<_>>()
